@@ -166,6 +166,11 @@ class FaultRun:
         res = self.res
         res.evaluations += 1
         res.count(f"faults.{fault.split(':')[0]}")
+        if len(res.samples) < 5 and fault.split(":")[0] not in {x.get("family") for x in res.samples if isinstance(x, dict)}:
+            res.sample({"family": fault.split(":")[0], "config": cfg_name(self.cfg), "fault": fault,
+                        "exception": None if exc is None else f"{type(exc).__name__}: {exc}"[:120],
+                        "rows_before": len(s.model.points), "rows_expected_after": len(expected),
+                        "history": [o if "q" not in o else dict(o, q=qast.show(o["q"])) for o in s.log[-4:]]})
         res.seen((fault, cfg_name(self.cfg), tuple(p.canon() for p in s.model.points)))
         if exc is None:
             # The property speaks about calls that raise; a call that returned is not a fault sequence.
@@ -386,9 +391,6 @@ def run(res, tier, seed, shard, nshards):
                 for fi, fam in enumerate(FAMILIES):
                     rng = rng_for("C11", tier, seed, shard, ci, h, fam)
                     FaultRun(res, cfg, scratch, rng).run_one(fam)
-        if shard == 0:
-            res.sample({"fault": "update_callable:tags:raise@1/3:all", "expected": "RuntimeError reaches caller, contents == before"})
-            res.sample({"fault": "insert_multiple:list-non-point@2/3", "expected": "TypeError, contents == before + first 2 points"})
     contracts.drain(res)
     for fam in ("insert_multiple", "update_callable", "invalid_argument", "read_only"):
         res.require(f"faults.{fam}")
